@@ -518,7 +518,23 @@ def record_engine(t, cap):
     from simaple.simulate.base import Dispatcher, RouterDispatcher, TandemDispatcher, message_signature
     from simaple.simulate.component.base import ContextDispatcher, ReducerMethodWrappingDispatcher
 
-    engine = get_operation_engine(build_env(t))
+    if t.get("addons"):
+        # real components wired with component addons ("when <src> is used, use <dst> too"): re-entrant dispatch
+        from simaple.container.simulation import get_skill_components
+        from simaple.simulate.component.base import _ComponentAddon
+        from simaple.simulate.kms import get_builder
+        env = build_env(t)
+        comps = get_skill_components(env)
+        extra = {}
+        for a, b in t["addons"]:
+            src, dst = comps[a % len(comps)], comps[b % len(comps)]
+            if src.name != dst.name:
+                extra.setdefault(a % len(comps), []).append(
+                    _ComponentAddon(when="use", destination=dst.name, method="use", payload={}))
+        comps = [c.model_copy(update={"addons": list(c.addons) + extra[i]}) if i in extra else c for i, c in enumerate(comps)]
+        engine = get_builder(comps, env.character.action_stat).build_operation_engine()
+    else:
+        engine = get_operation_engine(build_env(t))
     router = engine._router
     if type(router) is not RouterDispatcher:
         raise TypeError("engine router is %s" % type(router).__name__)
@@ -572,8 +588,14 @@ def record_engine(t, cap):
                 rec["cur"] = None
             return evs
 
+    import types
     structure = []
-    for i, d in enumerate(router._dispatchers):
+    for i, d in enumerate(list(router._dispatchers)):
+        if isinstance(d, types.FunctionType) and hasattr(d, "includes"):
+            # a `named_dispatcher` function (the timer): a primitive dispatcher installed as it is
+            structure.append({"base": d, "ctx": [], "tandem": False})
+            router._dispatchers[i] = RecBase(i, d)
+            continue
         if type(d) is not TandemDispatcher or type(d._base_dispatcher) is not ReducerMethodWrappingDispatcher:
             raise TypeError("dispatcher %d has the unrecognised shape %s" % (i, type(d).__name__))
         ctxs = []
@@ -581,7 +603,7 @@ def record_engine(t, cap):
             if type(c) is not ContextDispatcher or c._context is not router:
                 raise TypeError("addon of dispatcher %d is not a ContextDispatcher on this router" % i)
             ctxs.append((c._signature, message_signature(c._defined_action)))
-        structure.append({"base": d._base_dispatcher, "ctx": ctxs})
+        structure.append({"base": d._base_dispatcher, "ctx": ctxs, "tandem": True})
         d._base_dispatcher = RecBase(i, d._base_dispatcher)
     if len(router._route_cache) != 0:
         raise ValueError("route cache not empty before the first dispatch")
@@ -607,8 +629,9 @@ def record_engine(t, cap):
     disp = []
     for i, st in enumerate(structure):
         incl = [sid[s] for s in universe if st["base"].includes(s)]
-        disp.append({"t": "T", "base": {"t": "P", "id": i, "incl": incl, "fails": []},
-                     "next": [{"t": "C", "when": sid[w], "act": sid[a]} for w, a in st["ctx"]]})
+        prim = {"t": "P", "id": i, "incl": incl, "fails": []}
+        disp.append({"t": "T", "base": prim, "next": [{"t": "C", "when": sid[w], "act": sid[a]} for w, a in st["ctx"]]}
+                    if st["tandem"] else prim)
     index_of = {id(d): i for i, d in enumerate(router._dispatchers)}
     cache = []
     for s in universe:
@@ -618,7 +641,7 @@ def record_engine(t, cap):
             cache.append(None)
     extra_keys = [k for k in router._route_cache.keys() if k not in sid]
     return {
-        "id": "engine:" + t["id"], "kind": "engine", "job": t["job"],
+        "id": "engine:" + t["id"], "kind": "engine+addons" if t.get("addons") else "engine", "job": t["job"],
         "ops": [["I", d] for d in disp] + [["D", sid[c["sig"]]] for c in rec["calls"]],
         "late": False, "universe": [sid[s] for s in universe],
         "expected": [{"hit": c["hit"], "trace": [[i, sid[s]] for i, s in c["trace"]], "events": None} for c in rec["calls"]],
